@@ -1153,20 +1153,51 @@ fn c09(ctx: &Ctx, gi: usize, ri: usize, rep: &mut Report, note: &dyn Fn(&str)) {
 // ---------------------------------------------------------------------------------------------
 // C10: error reports
 
+/// Offsets of an observation made on a sub-input starting at `a`, made relative to that start.
+fn shift_obs(o: &Obs, a: usize) -> Result<Obs, String> {
+    let mut o = o.clone();
+    fn call(c: &mut Option<Call>, a: usize, name: &str) -> Result<(), String> {
+        if let Some(c) = c {
+            if c.ok {
+                c.end = c.end.checked_sub(a).ok_or(format!("{}: cursor {}", name, c.end))?;
+            }
+            if let Some(er) = &mut c.err {
+                er.pos = er.pos.checked_sub(a).ok_or(format!("{}: error location {}", name, er.pos))?;
+            }
+        }
+        Ok(())
+    }
+    call(&mut o.pp, a, "try_parse_partial")?;
+    call(&mut o.pf, a, "try_parse")?;
+    for (w, name) in [(&mut o.wp, "wp"), (&mut o.wf, "wf"), (&mut o.wc, "wc"), (&mut o.wcf, "wcf")] {
+        if let Some(w) = w {
+            w.tracker_pos = w.tracker_pos.checked_sub(a).ok_or(format!("{}: tracker position {}", name, w.tracker_pos))?;
+        }
+    }
+    Ok(o)
+}
+
 fn c10(ctx: &Ctx, gi: usize, ri: usize, rep: &mut Report, note: &dyn Fn(&str)) {
     let e = &ctx.entries[gi];
     let g = &ctx.grammars[gi];
     let inputs = inputs_for(ctx, e, 0);
+    let max = ctx.len_for(e);
     let w = what::PP | what::PF | what::WP | what::WF | what::WC | what::WCF | what::ERRTEXT;
-    for input in &inputs {
+    for whole in &inputs {
+      // sub-inputs (Position / Span of a longer string): the report is judged against the reference machine
+      // run on the slice, offsets shifted by the start of the sub-input
+      let sub_ok = whole.chars().count() + 1 <= max || ctx.opts.only_input.is_some();
+      for (form, a, b_end) in forms_of(e, whole, sub_ok) {
+        let hi = if form == Form::Span { b_end } else { whole.len() };
+        let input = &whole[a..hi];
         let case = Case {
             ctx,
             gi,
             ri,
-            input,
-            form: Form::Str,
-            a: 0,
-            b: input.len(),
+            input: whole,
+            form,
+            a,
+            b: b_end,
             init: &[],
         };
         note(&case.id());
@@ -1200,6 +1231,22 @@ fn c10(ctx: &Ctx, gi: usize, ri: usize, rep: &mut Report, note: &dyn Fn(&str)) {
             )),
         }
         rep.impl_validated += 1;
+        let o = if a > 0 {
+            match shift_obs(&o, a) {
+                Ok(o) => o,
+                Err(what) => {
+                    rep.violation(case.violation(
+                        "location-before-start-of-sub-input",
+                        format!(">= {}", a),
+                        what,
+                        String::new(),
+                    ));
+                    continue;
+                }
+            }
+        } else {
+            o
+        };
         let (pp, pf) = (o.pp.as_ref().unwrap(), o.pf.as_ref().unwrap());
         if pp.ok != m_ok || (m_ok && pp.end != m_end) || pf.ok != m_full {
             rep.cell("skipped-verdict-differs-from-model");
@@ -1304,10 +1351,12 @@ fn c10(ctx: &Ctx, gi: usize, ri: usize, rep: &mut Report, note: &dyn Fn(&str)) {
                 J::s(&format!("prefix matched up to {}, error at {}", m_end, pf.err.as_ref().map(|e| e.pos).unwrap_or(0))),
             ));
         }
+      }
     }
 }
 
 // ---------------------------------------------------------------------------------------------
+
 // C11 (termination half): every parse of every input returns on well-founded grammar/input pairs.
 // The watchdog in `pegx::main` turns a parse that does not return into a HANG report.
 
@@ -1553,7 +1602,7 @@ fn shape_of(n: &Node, name: &str) -> Option<Shape> {
         Ex::NegPred(_) => None,
         Ex::PosPred(e) | Ex::Push(e) | Ex::Restore(e) => shape_of(e, name),
         Ex::Opt(e) => shape_of(e, name).map(opt_shape),
-        Ex::Rep(e) | Ex::RepOnce(e) => shape_of(e, name).map(|s| Shape::Vec(Box::new(s))),
+        Ex::Rep(e) | Ex::RepOnce(e) | Ex::RepCount(e, _, _) => shape_of(e, name).map(|s| Shape::Vec(Box::new(s))),
         Ex::Seq(v) => join_shapes(v.iter().filter_map(|x| shape_of(x, name)).collect()),
         Ex::Choice(v) => join_shapes(v.iter().filter_map(|x| shape_of(x, name).map(opt_shape)).collect()),
         _ => None,
@@ -1592,7 +1641,24 @@ fn direct_matches(n: &m::MNode, g: &Grammar, name: &str, out: &mut Vec<(usize, u
 
 fn c16(ctx: &Ctx, gi: usize, ri: usize, rep: &mut Report, note: &dyn Fn(&str)) {
     let e = &ctx.entries[gi];
-    let g = &ctx.grammars[gi];
+    // with `pest_optimizer = false` the getters are derived from the unoptimized expression: the reference
+    // machine and the shape oracle then work on that expression too
+    let graw;
+    let g = if e.options.contains("pest_optimizer = false") {
+        match Grammar::load_raw(e.src) {
+            Ok(x) => {
+                graw = x;
+                &graw
+            }
+            Err(err) => {
+                rep.model_error(format!("unoptimized grammar does not load: {}", err));
+                return;
+            }
+        }
+    } else {
+        &ctx.grammars[gi]
+    };
+    let raw = e.options.contains("pest_optimizer = false");
     let inputs = inputs_for(ctx, e, 0);
     let runner = match e.rules[ri].getters {
         Some(r) => r,
@@ -1610,11 +1676,22 @@ fn c16(ctx: &Ctx, gi: usize, ri: usize, rep: &mut Report, note: &dyn Fn(&str)) {
             init: &[],
         };
         note(&case.id());
-        let b = base::base(g, e, ri, input, &[], Atom::NonAtomic, rep);
-        if b.ill_founded || b.m.ok.is_none() {
+        let mres = if raw {
+            let r = m::run(g, ri, input, "", &[], false, Atom::NonAtomic);
+            rep.states += r.stats.states;
+            rep.transitions += r.stats.transitions;
+            r
+        } else {
+            let b = base::base(g, e, ri, input, &[], Atom::NonAtomic, rep);
+            if b.ill_founded {
+                continue;
+            }
+            b.m
+        };
+        if mres.diverged || mres.nonprogress || mres.ok.is_none() {
             continue;
         }
-        let (m_end, body) = match &b.m.ok {
+        let (m_end, body) = match &mres.ok {
             Some((end, _, m::MNode::Rule { inner, .. })) => (*end, inner.as_ref().clone()),
             _ => continue,
         };
